@@ -17,12 +17,15 @@ namespace Just.C10
 open Just Just.Syntax
 
 /-- **Round trip.**  For every well-formed expression `e`, every level `k` at which it may stand,
-every continuation `rest` that does not extend a level-`k` phrase and every sufficient fuel, the
-level-`k` parser reads the printed tokens of `e` back as exactly `e` and stops at `rest`.
+every continuation `rest` that does not extend a level-`k` phrase (`Stop`: no operator of that level; `After`:
+when `e` ends with an identifier, no `(` - that would be a call - and directly after `x` no string - that
+would be a shell-expanded literal) and every sufficient fuel, the level-`k` parser reads the printed tokens of `e` back
+as exactly `e` and stops at `rest`.
 (Proof: Lemmas/SyntaxRoundtrip.lean, mutual structural induction over `Expr` / `Exprs`.) -/
 theorem roundtrip (e : Expr) (hw : WF e) (k : Nat) (hk : level e ≤ k) (hk3 : k ≤ 3) (f : Nat) (rest : List Tk)
-    (hf : 4 * e.size + k ≤ f) (hstop : Stop k rest) : parseAt k f (printE e ++ rest) = some (e, rest) :=
-  roundtrip_core e hw k hk hk3 f rest hf hstop
+    (hf : 4 * e.size + k ≤ f) (hstop : Stop k rest) (hafter : After e rest) :
+    parseAt k f (printE e ++ rest) = some (e, rest) :=
+  roundtrip_core e hw k hk hk3 f rest hf hstop hafter
 
 /-- arguments of a call -/
 theorem roundtripArgs (es : Exprs) (hw : WFs es) (f : Nat) (rest : List Tk) (hf : 4 * es.size + 1 ≤ f) :
@@ -32,13 +35,13 @@ theorem roundtripArgs (es : Exprs) (hw : WFs es) (f : Nat) (rest : List Tk) (hf 
 /-- **Formatting preserves the expression.**  Parsing the printed form of any expression the parser
 can produce yields that expression again and consumes every token. -/
 theorem parse_print (e : Expr) (hw : WF e) : parseExpression (4 * e.size + 3) (printE e) = some (e, []) := by
-  have := roundtrip e hw 3 (level_le3 e) (Nat.le_refl _) (4 * e.size + 3) [] (Nat.le_refl _) (stop_nil 3)
+  have := roundtrip e hw 3 (level_le3 e) (Nat.le_refl _) (4 * e.size + 3) [] (Nat.le_refl _) (stop_nil 3) (after_nil e)
   simpa [parseAt] using this
 
 /-- … for every larger amount of fuel as well: the bound is not a hidden restriction -/
 theorem parse_print_fuel (e : Expr) (hw : WF e) (f : Nat) (hf : 4 * e.size + 3 ≤ f) :
     parseExpression f (printE e) = some (e, []) := by
-  have := roundtrip e hw 3 (level_le3 e) (Nat.le_refl _) f [] hf (stop_nil 3)
+  have := roundtrip e hw 3 (level_le3 e) (Nat.le_refl _) f [] hf (stop_nil 3) (after_nil e)
   simpa [parseAt] using this
 
 /-- **Formatting is idempotent.**  Print, parse, print again: the same tokens. -/
@@ -52,10 +55,29 @@ theorem group_keeps_parentheses (e : Expr) : printE (.group e) = [.lparen] ++ pr
 
 /-- in interpolations, defaults and dependency arguments the same printer and parser are used: the
 round trip holds with any continuation that cannot extend the expression (`}}`, `)`, `,`, end of line …) -/
-theorem parse_print_in_context (e : Expr) (hw : WF e) (rest : List Tk) (hrest : Stop 3 rest) :
+theorem parse_print_in_context (e : Expr) (hw : WF e) (rest : List Tk) (hrest : Stop 3 rest) (hafter : After e rest) :
     parseExpression (4 * e.size + 3) (printE e ++ rest) = some (e, rest) := by
-  have := roundtrip e hw 3 (level_le3 e) (Nat.le_refl _) (4 * e.size + 3) rest (Nat.le_refl _) hrest
+  have := roundtrip e hw 3 (level_le3 e) (Nat.le_refl _) (4 * e.size + 3) rest (Nat.le_refl _) hrest hafter
   simpa [parseAt] using this
+
+/-- a shell-expanded literal `x'…'` is two tokens and is read back as the same literal -/
+example : printE (.str "x'~/a'") = [.ident "x", .strAdj "'~/a'"]
+    ∧ parseExpression 5 (printE (.str "x'~/a'")) = some (.str "x'~/a'", []) := by
+  constructor
+  · decide
+  · simp [parseExpression, parseDisjunct, parseConjunct, parseValue, printE, xLit, litTokens]
+
+/-- the `After` hypothesis is necessary: a trailing identifier does swallow a following `(` or, after `x`, a
+string written directly after it - the variable `f` followed by `('a')` is the call `f('a')`, `x` followed at
+once by `'a'` is `x'a'`; with white space between them (`x 'a'`: a plain `str` token) nothing is swallowed -/
+example : parseExpression 9 (printE (.var "f") ++ [.lparen, .str "'a'", .rparen])
+      = some (.call "f" (.cons (.str "'a'") .nil), [])
+    ∧ parseExpression 5 (printE (.var "x") ++ [.strAdj "'a'"]) = some (.str "x'a'", [])
+    ∧ parseExpression 5 (printE (.var "x") ++ [.str "'a'"]) = some (.var "x", [.str "'a'"]) := by
+  refine ⟨?_, ?_, ?_⟩
+  · simp [parseExpression, parseDisjunct, parseConjunct, parseValue, parseSequence, printE]
+  · simp [parseExpression, parseDisjunct, parseConjunct, parseValue, printE, xLit]
+  · simp [parseExpression, parseDisjunct, parseConjunct, parseValue, printE]
 
 /-- **Everything the parser returns is well-formed**, for any tokens and any fuel: so the round trip
 applies to every expression that can come out of a justfile. -/
@@ -120,13 +142,23 @@ example : Header.WFHeader
     simp at hd
     rcases hd with rfl | rfl
     · simp [Header.WFDep, Header.WFArgs]
-    · refine ⟨trivial, ?_, ?_⟩
+    · refine ⟨trivial, ?_, ?_, ?_⟩
       · exact stop_cons 3 _ _ (by simp [blocks])
+      · exact after_of_none rfl _
       · simp [Header.WFArgs, WF, okName]
   · intro d hd
     simp at hd
     subst hd
     simp [Header.WFDep, Header.WFArgs, WF, okName]
+
+/-- dependency arguments may begin with a parenthesis when the previous argument does not end with a name:
+`(dep 'a' ('b') x'c' (d))` -/
+example : Header.WFArgs [.str "'a'", .group (.str "'b'"), .str "x'c'", .group (.var "d")] := by
+  refine ⟨trivial, stop_cons 3 _ _ (by simp [blocks]), after_of_none rfl _, trivial, ?_, after_of_none rfl _,
+    trivial, stop_cons 3 _ _ (by simp [blocks]), after_of_none rfl _, ?_⟩
+  · have : printE (.str "x'c'") = [.ident "x", .strAdj "'c'"] := by decide
+    rw [this]; exact stop_cons 3 _ _ (by simp [blocks])
+  · exact (by simp [WF, okName] : WF (.group (.var "d")))
 
 /-- non-vacuity: `if a == (b + 'c') { f(x, y) / z } else if … { … } else { / w && v || u }` is well-formed -/
 example : WF (.cond (.var "a") .eq (.group (.concat (.var "b") (.str "'c'")))
